@@ -73,7 +73,7 @@ func init() {
 					return rel == "" || rel == "internal/messages" || rel == "internal/remoting/serialize" || rel == "internal/cluster"
 				})
 			}},
-			{ID: "C15.R11", Min: 4, Desc: "writer and reader choose between the registered format and the user Codec by the same registry-membership test", Fn: codecChoice},
+			{ID: "C15.R11", Min: 2, Desc: "writer and reader choose between the registered format and the user Codec by the same registry-membership test", Fn: codecChoice},
 			{ID: "C15.R12", Min: 1, Desc: "remote operations on an aged connection: a connection that lost its reader makes a later write fail (C14.R13)", Fn: c14HalfDeadNoticed},
 			{ID: "C15.R8", Min: 1, Desc: "an error carried by a message is reconstructed for every code other than the writer's no-error value", Fn: c15ErrorSentinel},
 			{ID: "C15.R5", Min: 2, Desc: "optional nested payloads are encodable without a codec", Fn: c15OptionalPayload},
@@ -656,9 +656,29 @@ func c11Roles(p *Program, r *Report) {
 		welems, _ = varargElems(wf.Call.Args[1])
 	}
 	wantW := []string{"MessageName", "call:(vivid.Envelop).System", "GetAddress<-call:(vivid.Envelop).Sender", "GetPath<-call:(vivid.Envelop).Sender", "GetAddress<-call:(vivid.Envelop).Receiver", "GetPath<-call:(vivid.Envelop).Receiver"}
-	if len(welems) != 6 {
+	// the payload and its name may be written by the message framing helper (Writer.WriteMessage(envelop.Message(), codec)):
+	// the trailer then starts at the system flag
+	off := 0
+	if len(welems) == 5 {
+		framed := false
+		for _, b := range enc.Blocks {
+			for _, in := range b.Instrs {
+				if c, ok := in.(*ssa.Call); ok && c.Call.StaticCallee() != nil && c.Call.StaticCallee().Name() == "WriteMessage" && len(c.Call.Args) >= 2 {
+					if anyContains(p.origins(c.Call.Args[1]), "call:(vivid.Envelop).Message") {
+						framed = true
+					}
+				}
+			}
+		}
+		if framed {
+			off = 1
+			r.Check(true, "envelope writer position name", wf.Pos(), "payload and wire name are written by the message framing helper from envelop.Message() (its agreement with the reader is C12.R1)")
+		}
+	}
+	if len(welems)+off != 6 {
 		r.Violate("envelope writer positions", enc.Pos(), "the trailer WriteFrom of the envelope does not have 6 recoverable arguments")
 	} else {
+		wantW, roles := wantW[off:], roles[off:]
 		for i, e := range welems {
 			o := p.origins(e)
 			// locals assigned under `if s := envelop.Sender(); s != nil`: keep only chains that are not the empty-string default
